@@ -95,6 +95,14 @@ def grid(quick):
             cells.append(cell(n, "uniform", mi, start="eigvec"))
         cells.append(cell(n, "kappa10", n, start="eigvec", nvec=2))
         cells.append(cell(n, "scalar", n, batch=[2], dtype="f32"))
+    # (8) float32, norm ~1e2, fast decaying spectrum or rank deficient, budget past the numerical rank: one
+    #     Gram-Schmidt pass is not enough there, the extra re-orthogonalisation passes do the work
+    for n in ([16, 32] if quick else [12, 16, 32, 48]):
+        for fam in ("rbf", "geometric", "wide", "rank3", "rankhalf"):
+            for batch, nvec in (([], 1), ([2], 1), ([], 2)):
+                if quick and (n + len(fam) + nvec + len(batch)) % 2:
+                    continue
+                cells.append(cell(n, fam, n, batch=batch, nvec=nvec, dtype="f32", scale=1e2))
     # n = 1 (every budget gives num_iter = 1)
     for mi in (1, 2, 3):
         cells.append(cell(1, "uniform", mi))
